@@ -16,19 +16,17 @@ Lemma embed_SWhile names k c b : embed_stmt names k (SWhile c b) =
   NFor (Some (embed names c)) None None (embed_stmts names k b).
 Proof. reflexivity. Qed.
 
-Lemma wf_stmts_cons top k s r : wf_stmts top k (s :: r) = wf_stmt top k s && wf_stmts top (next_k k s) r.
+Lemma wf_stmts_cons top lp k s r : wf_stmts top lp k (s :: r) = wf_stmt top lp k s && wf_stmts top lp (next_k k s) r.
 Proof. reflexivity. Qed.
-Lemma wf_SIf top k c t e : wf_stmt top k (SIf c t e) = wf k c && wf_stmts false k t && wf_stmts false k e.
+Lemma wf_SIf top lp k c t e : wf_stmt top lp k (SIf c t e) = wf k c && wf_stmts false lp k t && wf_stmts false lp k e.
 Proof. reflexivity. Qed.
-Lemma wf_SIf1 top k c t : wf_stmt top k (SIf1 c t) = wf k c && wf_stmts false k t.
+Lemma wf_SIf1 top lp k c t : wf_stmt top lp k (SIf1 c t) = wf k c && wf_stmts false lp k t.
 Proof. reflexivity. Qed.
-Lemma wf_SWhile top k c b : wf_stmt top k (SWhile c b) = wf k c && wf_stmts false k b.
+Lemma wf_SWhile top lp k c b : wf_stmt top lp k (SWhile c b) = wf k c && wf_stmts false true k b.
 Proof. reflexivity. Qed.
-Lemma wf_false_next k s : wf_stmt false k s = true -> next_k k s = k.
+Lemma wf_false_next lp k s : wf_stmt false lp k s = true -> next_k k s = k.
 Proof. destruct s; try reflexivity. discriminate. Qed.
-Lemma wf_false_top k s : wf_stmt false k s = true -> wf_stmt true k s = true.
-Proof. destruct s; try (intros H; exact H). discriminate. Qed.
-Lemma wf_false_ndecls : forall l k, wf_stmts false k l = true -> ndecls l = 0.
+Lemma wf_false_ndecls lp : forall l k, wf_stmts false lp k l = true -> ndecls l = 0.
 Proof.
   induction l as [|s r IH]; intros k H; [reflexivity|].
   rewrite wf_stmts_cons in H. apply andb_true_iff in H. destruct H as [Hs Hr].
@@ -57,7 +55,7 @@ Lemma max_need_pos l : 1 <= max_need l.
 Proof. induction l as [|s r IH]; [cbn; lia|rewrite max_need_cons; lia]. Qed.
 Lemma sneed_pos s : 1 <= sneed s.
 Proof.
-  destruct s as [e|i e|e|c t e|c t|c b]; try (cbn [sneed]; apply need_pos).
+  destruct s as [e|i e|e|c t e|c t|c b| |]; try (cbn [sneed]; apply need_pos); try (cbn [sneed]; lia).
   - rewrite sneed_SIf. pose proof (need_pos c). lia.
   - rewrite sneed_SIf1. pose proof (need_pos c). lia.
   - rewrite sneed_SWhile. pose proof (need_pos c). lia.
@@ -77,56 +75,58 @@ Proof. reflexivity. Qed.
 Lemma run_SIf n rho c t e : run_stmt (S n) rho (SIf c t e) =
   match sev rho c with
   | inl vc => run_stmts n rho (if struthy vc then t else e) VNil
-  | inr x => Some (inr x)
+  | inr x => Some (inr (StErr x))
   end.
 Proof. reflexivity. Qed.
 Lemma run_SIf1 n rho c t : run_stmt (S n) rho (SIf1 c t) =
   match sev rho c with
   | inl vc => if struthy vc then run_stmts n rho t VNil else Some (inl (rho, VNil))
-  | inr x => Some (inr x)
+  | inr x => Some (inr (StErr x))
   end.
 Proof. reflexivity. Qed.
 Lemma run_SWhile n rho c b : run_stmt (S n) rho (SWhile c b) =
   match sev rho c with
   | inl vc => if struthy vc then
                 match run_stmts n rho b VNil with
-                | Some (inl (rho', _)) => run_stmt n rho' (SWhile c b)
+                | Some (inl (rho', _)) | Some (inr (StCont rho')) => run_stmt n rho' (SWhile c b)
+                | Some (inr (StBrk rho')) => Some (inl (rho', VNil))
                 | other => other
                 end
               else Some (inl (rho, VNil))
-  | inr x => Some (inr x)
+  | inr x => Some (inr (StErr x))
   end.
 Proof. reflexivity. Qed.
 
 (* ---------------------------------------------------------------- emitted code *)
-Lemma pcode_single k base s : pcode k base [s] =
-  let '(c, ks) := stmt_code k base s in (c ++ (if is_expr_stmt s then [] else [opNil]), ks).
+Lemma scode_single k base s : scode k base [s] =
+  let '(c, ks) := stmt_code k base s in (c ++ (if is_expr_stmt s then [] else I [opNil]), ks).
 Proof. reflexivity. Qed.
-Lemma pcode_cons2 k base s s2 r2 : pcode k base (s :: s2 :: r2) =
+Lemma scode_cons2 k base s s2 r2 : scode k base (s :: s2 :: r2) =
   let '(c, ks) := stmt_code k base s in
-  let '(cr, kr) := pcode (next_k k s) (base + length ks) (s2 :: r2) in
-  (c ++ (if is_expr_stmt s then [opPopTop] else []) ++ cr, ks ++ kr).
+  let '(cr, kr) := scode (next_k k s) (base + length ks) (s2 :: r2) in
+  (c ++ (if is_expr_stmt s then I [opPopTop] else []) ++ cr, ks ++ kr).
 Proof. reflexivity. Qed.
-Lemma block_code_nil k base : block_code k base [] = ([opNil], []).
+Lemma block_code_nil k base : block_code k base [] = (I [opNil], []).
 Proof. reflexivity. Qed.
-Lemma block_code_cons k base s r : block_code k base (s :: r) = pcode k base (s :: r).
+Lemma block_code_cons k base s r : block_code k base (s :: r) = scode k base (s :: r).
 Proof. reflexivity. Qed.
 Lemma code_SIf k base c t e : stmt_code k base (SIf c t e) =
   let '(cc, kc) := cexp base c in
   let '(ct, kt) := block_code k (base + length kc) t in
   let '(ce, ke) := block_code k (base + length kc + length kt) e in
-  (cc ++ [opPopJumpForwardIfFalse; (nlenN ct + 4)%N] ++ ct ++ [opJumpForward; (nlenN ce + 2)%N] ++ ce, kc ++ kt ++ ke).
+  (I cc ++ I [opPopJumpForwardIfFalse; (nlen ct + 4)%N] ++ ct ++ I [opJumpForward; (nlen ce + 2)%N] ++ ce, kc ++ kt ++ ke).
 Proof. reflexivity. Qed.
 Lemma code_SIf1 k base c t : stmt_code k base (SIf1 c t) =
   let '(cc, kc) := cexp base c in
   let '(ct, kt) := block_code k (base + length kc) t in
-  (cc ++ [opPopJumpForwardIfFalse; (nlenN ct + 4)%N] ++ ct ++ [opJumpForward; 3%N] ++ [opNil], kc ++ kt).
+  (I cc ++ I [opPopJumpForwardIfFalse; (nlen ct + 4)%N] ++ ct ++ I [opJumpForward; 3%N] ++ I [opNil], kc ++ kt).
 Proof. reflexivity. Qed.
 Lemma code_SWhile k base c b : stmt_code k base (SWhile c b) =
   let '(cc, kc) := cexp base c in
   let '(cb, kb) := block_code k (base + length kc) b in
-  (cc ++ [opPopJumpForwardIfFalse; (nlenN cb + 6)%N] ++ cb ++
-   [opPopTop; opJumpBackward; (nlenN cc + 2 + nlenN cb + 1)%N; opNop], kc ++ kb).
+  let inner := I cc ++ I [opPopJumpForwardIfFalse; (nlen cb + 6)%N] ++ cb ++ I [opPopTop] in
+  let jb := nlen inner in
+  (patch 0 (jb + 2) jb inner ++ I [opJumpBackward; jb; opNop], kc ++ kb).
 Proof. reflexivity. Qed.
 
 (* ---------------------------------------------------------------- assignment *)
@@ -138,59 +138,142 @@ Lemma nth_set_nth_other i j v rho d : i <> j -> nth j (set_nth i v rho) d = nth 
 Proof. revert i j; induction rho as [|x r IH]; intros [|i] [|j] H; cbn; try reflexivity; try lia. apply IH. lia. Qed.
 
 (* ---------------------------------------------------------------- what a run does to the variable list *)
+(* the variable list a result carries: after a normal end the declaration (if any) is added; a break / continue
+   carries the list of its own moment, of the same length (blocks declare nothing) *)
+Definition len_ok (rho : list sval) (s : stmt) (r : (list sval * sval) + stop) : Prop :=
+  match r with
+  | inl (rho', _) => length rho' = next_k (length rho) s
+  | inr (StBrk rho') | inr (StCont rho') => length rho' = length rho
+  | inr (StErr _) => True
+  end.
 Definition length_ok (n : nat) : Prop :=
-  forall rho s top rho' v, wf_stmt top (length rho) s = true -> run_stmt n rho s = Some (inl (rho', v)) ->
-    length rho' = next_k (length rho) s.
+  forall rho s top lp r, wf_stmt top lp (length rho) s = true -> run_stmt n rho s = Some r -> len_ok rho s r.
 
-Lemma run_list_length n : length_ok n -> forall l rho last rho' v,
-  wf_stmts false (length rho) l = true -> run_stmts n rho l last = Some (inl (rho', v)) -> length rho' = length rho.
+Definition lens_ok (rho : list sval) (r : (list sval * sval) + stop) : Prop :=
+  match r with
+  | inl (rho', _) | inr (StBrk rho') | inr (StCont rho') => length rho' = length rho
+  | inr (StErr _) => True
+  end.
+
+Lemma run_list_length n : length_ok n -> forall l rho last lp r,
+  wf_stmts false lp (length rho) l = true -> run_stmts n rho l last = Some r -> lens_ok rho r.
 Proof.
-  intros Hn. induction l as [|s r IH]; intros rho last rho' v Hwf Hr.
+  intros Hn. induction l as [|s r0 IH]; intros rho last lp r Hwf Hr.
   - cbn in Hr. inversion Hr. reflexivity.
   - rewrite wf_stmts_cons in Hwf. apply andb_true_iff in Hwf. destruct Hwf as [Hs Hwr].
     rewrite run_stmts_cons in Hr.
     destruct (run_stmt n rho s) as [[[rho1 v1]|x]|] eqn:E; try discriminate.
-    pose proof (Hn rho s false rho1 v1 Hs E) as Hl. rewrite (wf_false_next _ _ Hs) in Hl, Hwr.
-    rewrite <- Hl in Hwr. rewrite (IH rho1 v1 rho' v Hwr Hr). exact Hl.
+    + pose proof (Hn rho s false lp _ Hs E) as Hl. cbn [len_ok] in Hl. rewrite (wf_false_next _ _ _ Hs) in Hl, Hwr.
+      rewrite <- Hl in Hwr. pose proof (IH rho1 v1 lp r Hwr Hr) as H2.
+      destruct r as [[rho2 v2]|[e|rho2|rho2]]; cbn [lens_ok] in *; congruence.
+    + inversion Hr; subst r. pose proof (Hn rho s false lp _ Hs E) as Hl. destruct x; exact Hl.
 Qed.
 
 Lemma run_stmt_length : forall n, length_ok n.
 Proof.
-  induction n as [|n IH]; intros rho s top rho' v Hwf Hr; [discriminate|].
-  destruct s as [e|i e|e|c t e|c t|c b].
-  - cbn [run_stmt] in Hr. destruct (sev rho e); inversion Hr. rewrite app_length. cbn. lia.
-  - cbn [run_stmt] in Hr. destruct (sev rho e); inversion Hr. apply set_nth_length.
-  - cbn [run_stmt] in Hr. destruct (sev rho e); inversion Hr. reflexivity.
+  induction n as [|n IH]; intros rho s top lp r Hwf Hr; [discriminate|].
+  destruct s as [e|i e|e|c t e|c t|c b| |].
+  - cbn [run_stmt] in Hr. destruct (sev rho e); inversion Hr; cbn [len_ok next_k]; [rewrite app_length; cbn; lia|exact Logic.I].
+  - cbn [run_stmt] in Hr. destruct (sev rho e); inversion Hr; cbn [len_ok next_k]; [apply set_nth_length|exact Logic.I].
+  - cbn [run_stmt] in Hr. destruct (sev rho e); inversion Hr; cbn [len_ok next_k]; [reflexivity|exact Logic.I].
   - rewrite wf_SIf in Hwf. apply andb_true_iff in Hwf. destruct Hwf as [Hwct Hwe].
     apply andb_true_iff in Hwct. destruct Hwct as [Hwc Hwt].
-    rewrite run_SIf in Hr. destruct (sev rho c) as [vc|x]; [|discriminate]. cbn [next_k].
-    destruct (struthy vc); [exact (run_list_length n IH t rho VNil rho' v Hwt Hr)|exact (run_list_length n IH e rho VNil rho' v Hwe Hr)].
+    rewrite run_SIf in Hr. destruct (sev rho c) as [vc|x]; [|inversion Hr; exact Logic.I].
+    assert (H : lens_ok rho r).
+    { destruct (struthy vc); [exact (run_list_length n IH t rho VNil lp r Hwt Hr)|exact (run_list_length n IH e rho VNil lp r Hwe Hr)]. }
+    destruct r as [[rho2 v2]|[x|rho2|rho2]]; exact H.
   - rewrite wf_SIf1 in Hwf. apply andb_true_iff in Hwf. destruct Hwf as [Hwc Hwt].
-    rewrite run_SIf1 in Hr. destruct (sev rho c) as [vc|x]; [|discriminate]. cbn [next_k].
-    destruct (struthy vc); [exact (run_list_length n IH t rho VNil rho' v Hwt Hr)|inversion Hr; reflexivity].
-  - rewrite wf_SWhile in Hwf. apply andb_true_iff in Hwf. destruct Hwf as [Hwc Hwb].
-    rewrite run_SWhile in Hr. destruct (sev rho c) as [vc|x]; [|discriminate]. cbn [next_k].
+    rewrite run_SIf1 in Hr. destruct (sev rho c) as [vc|x]; [|inversion Hr; exact Logic.I].
     destruct (struthy vc); [|inversion Hr; reflexivity].
-    destruct (run_stmts n rho b VNil) as [[[rho1 v1]|x]|] eqn:E; try discriminate.
-    pose proof (run_list_length n IH b rho VNil rho1 v1 Hwb E) as Hl.
-    assert (Hw' : wf_stmt top (length rho1) (SWhile c b) = true)
-      by (rewrite wf_SWhile, Hl, Hwc, Hwb; reflexivity).
-    rewrite (IH rho1 (SWhile c b) top rho' v Hw' Hr). cbn [next_k]. exact Hl.
+    pose proof (run_list_length n IH t rho VNil lp r Hwt Hr) as H.
+    destruct r as [[rho2 v2]|[x|rho2|rho2]]; exact H.
+  - rewrite wf_SWhile in Hwf. apply andb_true_iff in Hwf. destruct Hwf as [Hwc Hwb].
+    rewrite run_SWhile in Hr. destruct (sev rho c) as [vc|x]; [|inversion Hr; exact Logic.I].
+    destruct (struthy vc); [|inversion Hr; reflexivity].
+    destruct (run_stmts n rho b VNil) as [[[rho1 v1]|[x|rho1|rho1]]|] eqn:E; try discriminate.
+    + pose proof (run_list_length n IH b rho VNil true _ Hwb E) as Hl. cbn [lens_ok] in Hl.
+      assert (Hw' : wf_stmt top lp (length rho1) (SWhile c b) = true) by (rewrite wf_SWhile, Hl, Hwc, Hwb; reflexivity).
+      pose proof (IH rho1 (SWhile c b) top lp r Hw' Hr) as H2.
+      destruct r as [[rho2 v2]|[x|rho2|rho2]]; cbn [len_ok next_k] in *; congruence.
+    + inversion Hr; exact Logic.I.
+    + pose proof (run_list_length n IH b rho VNil true _ Hwb E) as Hl. cbn [lens_ok] in Hl.
+      inversion Hr; subst r. exact Hl.
+    + pose proof (run_list_length n IH b rho VNil true _ Hwb E) as Hl. cbn [lens_ok] in Hl.
+      assert (Hw' : wf_stmt top lp (length rho1) (SWhile c b) = true) by (rewrite wf_SWhile, Hl, Hwc, Hwb; reflexivity).
+      pose proof (IH rho1 (SWhile c b) top lp r Hw' Hr) as H2.
+      destruct r as [[rho2 v2]|[x|rho2|rho2]]; cbn [len_ok next_k] in *; congruence.
+  - cbn [run_stmt] in Hr. inversion Hr. reflexivity.
+  - cbn [run_stmt] in Hr. inversion Hr. reflexivity.
 Qed.
 
-Lemma run_stmts_length n l rho last rho' v :
-  wf_stmts false (length rho) l = true -> run_stmts n rho l last = Some (inl (rho', v)) -> length rho' = length rho.
+Lemma run_stmts_length n l rho last lp r :
+  wf_stmts false lp (length rho) l = true -> run_stmts n rho l last = Some r -> lens_ok rho r.
 Proof. apply run_list_length. apply run_stmt_length. Qed.
 
 (* a statement that is not an expression has the value nil *)
 Lemma run_stmt_value : forall n rho s rho' v, run_stmt n rho s = Some (inl (rho', v)) -> is_expr_stmt s = false -> v = VNil.
 Proof.
   induction n as [|n IH]; intros rho s rho' v Hr Hx; [discriminate|].
-  destruct s as [e|i e|e|c t e|c t|c b]; try discriminate.
+  destruct s as [e|i e|e|c t e|c t|c b| |]; try discriminate.
   - cbn [run_stmt] in Hr. destruct (sev rho e); inversion Hr. reflexivity.
   - cbn [run_stmt] in Hr. destruct (sev rho e); inversion Hr. reflexivity.
   - rewrite run_SWhile in Hr. destruct (sev rho c) as [vc|x]; [|discriminate].
     destruct (struthy vc); [|inversion Hr; reflexivity].
-    destruct (run_stmts n rho b VNil) as [[[rho1 v1]|x]|]; try discriminate.
-    exact (IH rho1 (SWhile c b) rho' v Hr eq_refl).
+    destruct (run_stmts n rho b VNil) as [[[rho1 v1]|[x|rho1|rho1]]|]; try discriminate.
+    + exact (IH rho1 (SWhile c b) rho' v Hr eq_refl).
+    + inversion Hr. reflexivity.
+    + exact (IH rho1 (SWhile c b) rho' v Hr eq_refl).
+Qed.
+
+(* break and continue do not leave a statement that is not inside a loop *)
+Definition no_ctl (r : (list sval * sval) + stop) : Prop :=
+  match r with inr (StBrk _) | inr (StCont _) => False | _ => True end.
+Lemma no_escape : forall n rho s top r, wf_stmt top false (length rho) s = true -> run_stmt n rho s = Some r -> no_ctl r.
+Proof.
+  induction n as [|n IH]; intros rho s top r Hwf Hr; [discriminate|].
+  assert (Hlist : forall l rho0 last r0, wf_stmts false false (length rho0) l = true -> run_stmts n rho0 l last = Some r0 -> no_ctl r0).
+  { induction l as [|s0 l0 IHl]; intros rho0 last r0 Hw H0.
+    - cbn in H0. inversion H0. exact Logic.I.
+    - rewrite wf_stmts_cons in Hw. apply andb_true_iff in Hw. destruct Hw as [Hs Hw].
+      rewrite run_stmts_cons in H0.
+      destruct (run_stmt n rho0 s0) as [[[rho1 v1]|x]|] eqn:E; try discriminate.
+      + pose proof (run_stmt_length n rho0 s0 false false _ Hs E) as Hl. cbn [len_ok] in Hl.
+        rewrite (wf_false_next _ _ _ Hs) in Hl, Hw. rewrite <- Hl in Hw. exact (IHl rho1 v1 r0 Hw H0).
+      + inversion H0; subst r0. exact (IH rho0 s0 false _ Hs E). }
+  destruct s as [e|i e|e|c t e|c t|c b| |].
+  - cbn [run_stmt] in Hr. destruct (sev rho e); inversion Hr; exact Logic.I.
+  - cbn [run_stmt] in Hr. destruct (sev rho e); inversion Hr; exact Logic.I.
+  - cbn [run_stmt] in Hr. destruct (sev rho e); inversion Hr; exact Logic.I.
+  - rewrite wf_SIf in Hwf. apply andb_true_iff in Hwf. destruct Hwf as [Hwct Hwe].
+    apply andb_true_iff in Hwct. destruct Hwct as [Hwc Hwt].
+    rewrite run_SIf in Hr. destruct (sev rho c) as [vc|x]; [|inversion Hr; exact Logic.I].
+    destruct (struthy vc); [exact (Hlist t rho VNil r Hwt Hr)|exact (Hlist e rho VNil r Hwe Hr)].
+  - rewrite wf_SIf1 in Hwf. apply andb_true_iff in Hwf. destruct Hwf as [Hwc Hwt].
+    rewrite run_SIf1 in Hr. destruct (sev rho c) as [vc|x]; [|inversion Hr; exact Logic.I].
+    destruct (struthy vc); [exact (Hlist t rho VNil r Hwt Hr)|inversion Hr; exact Logic.I].
+  - rewrite wf_SWhile in Hwf. apply andb_true_iff in Hwf. destruct Hwf as [Hwc Hwb].
+    rewrite run_SWhile in Hr. destruct (sev rho c) as [vc|x]; [|inversion Hr; exact Logic.I].
+    destruct (struthy vc); [|inversion Hr; exact Logic.I].
+    destruct (run_stmts n rho b VNil) as [[[rho1 v1]|[x|rho1|rho1]]|] eqn:E; try discriminate.
+    + pose proof (run_stmts_length n b rho VNil true _ Hwb E) as Hl. cbn [lens_ok] in Hl.
+      apply (IH rho1 (SWhile c b) top r); [rewrite wf_SWhile, Hl, Hwc, Hwb; reflexivity|exact Hr].
+    + inversion Hr; exact Logic.I.
+    + inversion Hr; exact Logic.I.
+    + pose proof (run_stmts_length n b rho VNil true _ Hwb E) as Hl. cbn [lens_ok] in Hl.
+      apply (IH rho1 (SWhile c b) top r); [rewrite wf_SWhile, Hl, Hwc, Hwb; reflexivity|exact Hr].
+  - discriminate.
+  - discriminate.
+Qed.
+
+Lemma no_escape_stmts n : forall l rho top last r,
+  wf_stmts top false (length rho) l = true -> run_stmts n rho l last = Some r -> no_ctl r.
+Proof.
+  induction l as [|s l IH]; intros rho top last r Hw Hr.
+  - cbn in Hr. inversion Hr. exact Logic.I.
+  - rewrite wf_stmts_cons in Hw. apply andb_true_iff in Hw. destruct Hw as [Hs Hw].
+    rewrite run_stmts_cons in Hr.
+    destruct (run_stmt n rho s) as [[[rho1 v1]|x]|] eqn:E; try discriminate.
+    + pose proof (run_stmt_length n rho s top false _ Hs E) as Hl. cbn [len_ok] in Hl.
+      rewrite <- Hl in Hw. exact (IH rho1 top v1 r Hw Hr).
+    + inversion Hr; subst r. exact (no_escape n rho s top _ Hs E).
 Qed.
